@@ -576,7 +576,14 @@ class SSHStreamSession(Generic[AnyStr]):
                         self._eof_received or break_read:
                     break
 
-                await self._block_read(datatype)
+                try:
+                    await self._block_read(datatype)
+                except asyncio.CancelledError:
+                    # Put back what this read has taken out of the buffer
+                    # so far, so a later read still returns it
+                    recv_buf[:0] = data
+                    self._recv_buf_len += sum(len(d) for d in data)
+                    raise
 
         result = cast(AnyStr, '' if self._encoding else b'').join(data)
 
